@@ -71,23 +71,23 @@ def eval_gt(f, asec, bsec, ansec, bnsec):
     return lib.eval_cmp_fn(f, {(a, TS + 'tv_sec'): asec, (b, TS + 'tv_sec'): bsec, (a, TS + 'tv_nsec'): ansec, (b, TS + 'tv_nsec'): bnsec})
 
 
-def rule2_arith(ctx, v):
-    ctx.doc('C20.2', 'myth_timespec_gt(a,b) == (a.sec > b.sec) || (a.sec == b.sec && a.nsec > b.nsec) on all 9 ordering cases '
+def rule2_arith(ctx, v, rule='C20.2'):
+    ctx.doc(rule, 'myth_timespec_gt(a,b) == (a.sec > b.sec) || (a.sec == b.sec && a.nsec > b.nsec) on all 9 ordering cases '
             '(finite because the function is loop-free and uses its inputs only in comparisons); myth_timespec_add: '
             'c.nsec = S % 10^9, c.sec = a.sec + b.sec + S / 10^9 with S = a.nsec + b.nsec the same SSA value')
     g = ctx.need_fn(v, 'myth_timespec_gt')
-    ctx.ob('C20.2', 'timespec_gt is loop-free', not g.loops, 'finite ordering-case evaluation applies', loc=g.loc)
+    ctx.ob(rule, 'timespec_gt is loop-free', not g.loops, 'finite ordering-case evaluation applies', loc=g.loc)
     for ds in (-1, 0, 1):
         for dn in (-1, 0, 1):
             got = eval_gt(g, 10 + ds, 10, 500 + dn, 500)
             want = 1 if (ds > 0 or (ds == 0 and dn > 0)) else 0
-            ctx.ob('C20.2', 'timespec_gt case sec%+d nsec%+d' % (ds, dn), got is not None and (1 if got else 0) == want,
+            ctx.ob(rule, 'timespec_gt case sec%+d nsec%+d' % (ds, dn), got is not None and (1 if got else 0) == want,
                    'lexicographic comparison of (tv_sec, tv_nsec)', loc=g.loc, detail='returned %s, expected %s' % (got, want))
     a = ctx.need_fn(v, 'myth_timespec_add')
     pa, pb, pc = 'a0', 'a1', 'a2'
     sn = [s for s in a.stores_to(TS + 'tv_nsec') if same_value(a, a.ap(s.ops[1]).root, pc)]
     ss = [s for s in a.stores_to(TS + 'tv_sec') if same_value(a, a.ap(s.ops[1]).root, pc)]
-    ctx.ob('C20.2', 'add stores both fields', len(sn) == 1 and len(ss) == 1, 'tv_sec and tv_nsec of the result are written', loc=a.loc)
+    ctx.ob(rule, 'add stores both fields', len(sn) == 1 and len(ss) == 1, 'tv_sec and tv_nsec of the result are written', loc=a.loc)
     if len(sn) == 1 and len(ss) == 1:
         rem = a.get(a.strip(sn[0].ops[0]))
         okr = rem is not None and rem.op in ('srem', 'urem') and const_int(rem.ops[1]) == NS
@@ -107,7 +107,7 @@ def rule2_arith(ctx, v):
             lds = [k for k in sa if k in a.insts and a.insts[k].op == 'load' and a.field(a.insts[k]) == TS + 'tv_nsec']
             okS = len(lds) == 2 and all(sa[k] == 1 for k in lds) and len([k for k in sa if k != '']) == 2 and sa.get('', 0) == 0 and \
                 sorted(a.strip(a.ap(a.insts[k].ops[0]).root) for k in lds) == [pa, pb]
-        ctx.ob('C20.2', 'nsec = (a.nsec + b.nsec) % 10^9', okr and okS, 'nanoseconds wrap at one second', loc=sn[0].loc,
+        ctx.ob(rule, 'nsec = (a.nsec + b.nsec) % 10^9', okr and okS, 'nanoseconds wrap at one second', loc=sn[0].loc,
                detail=expr_str(a, sn[0].ops[0]))
         sa2 = affine(a, ss[0].ops[0])
         div = [k for k in sa2 if k in a.insts and a.insts[k].op in ('sdiv', 'udiv')]
@@ -116,10 +116,10 @@ def rule2_arith(ctx, v):
         secl = [k for k in sa2 if k in a.insts and a.insts[k].op == 'load' and a.field(a.insts[k]) == TS + 'tv_sec']
         oks = len(secl) == 2 and all(sa2[k] == 1 for k in secl) and sorted(a.strip(a.ap(a.insts[k].ops[0]).root) for k in secl) == [pa, pb] and \
             len([k for k in sa2 if k != '']) == 3 and sa2.get('', 0) == 0
-        ctx.ob('C20.2', 'sec = a.sec + b.sec + (a.nsec + b.nsec) / 10^9', okd and oks,
+        ctx.ob(rule, 'sec = a.sec + b.sec + (a.nsec + b.nsec) / 10^9', okd and oks,
                'the carry of the very same nanosecond sum is added to the seconds (a lost carry makes a sleep return a second early)',
                loc=ss[0].loc, detail=expr_str(a, ss[0].ops[0]))
-    ctx.floor('C20.2', 12)
+    ctx.floor(rule, 12)
 
 
 def deadline_tests(f):
@@ -134,8 +134,8 @@ def yields(f):
     return call_sites(f, ('myth_yield_body', 'myth_yield_ex_body', 'myth_yield'))
 
 
-def rule3_noearly(ctx, v):
-    ctx.doc('C20.3', 'nanosleep: 0 returned only on the true edge of gt(cur, unt); cur filled by hr_gettime inside the loop, unt = '
+def rule3_noearly(ctx, v, rule='C20.3'):
+    ctx.doc(rule, 'nanosleep: 0 returned only on the true edge of gt(cur, unt); cur filled by hr_gettime inside the loop, unt = '
             'add(start, req) computed once before it; timedlock / timedjoin: timeout code only on that edge with abstime as the '
             'deadline, never reachable from a try whose result was not tested, 0 only on try == 0; every iteration of the waiting '
             'loops passes a yield whose option is not steal-only')
@@ -144,20 +144,20 @@ def rule3_noearly(ctx, v):
     dts = deadline_tests(f)
     adds = call_sites(f, 'myth_timespec_add')
     clk = call_sites(f, 'hr_gettime')
-    ctx.ob('C20.3', 'nanosleep: shape', len(dts) == 1 and len(adds) == 1, 'one deadline computation, one deadline test', loc=f.loc)
+    ctx.ob(rule, 'nanosleep: shape', len(dts) == 1 and len(adds) == 1, 'one deadline computation, one deadline test', loc=f.loc)
     for g, conds in dts:
         loopclk = [c for c in clk if f.in_loop(c)]
         ok = len(loopclk) == 1 and f.sources(g.args[0]) == f.sources(loopclk[0].args[0]) and f.dominates_f(loopclk[0], g) and \
             lib.loop_containing(f, g) == lib.loop_containing(f, loopclk[0])
-        ctx.ob('C20.3', 'nanosleep: compares a clock value read in the same iteration', ok, 'gt(cur, ..) with cur = hr_gettime() of this iteration',
+        ctx.ob(rule, 'nanosleep: compares a clock value read in the same iteration', ok, 'gt(cur, ..) with cur = hr_gettime() of this iteration',
                loc=g.loc)
         okd = bool(adds) and f.sources(g.args[1]) == f.sources(adds[0].args[2]) and not f.in_loop(adds[0])
-        ctx.ob('C20.3', 'nanosleep: deadline is start + request', okd and bool(adds) and same_value(f, adds[0].args[1], req) and
+        ctx.ob(rule, 'nanosleep: deadline is start + request', okd and bool(adds) and same_value(f, adds[0].args[1], req) and
                any(f.sources(adds[0].args[0]) == f.sources(c.args[0]) and f.dominates_f(c, adds[0]) for c in clk if not f.in_loop(c)),
                'unt = add(time at entry, req), computed once', loc=(adds[0].loc if adds else g.loc))
         for val, anchor in ret_cases(f):
             if const_int(val) == 0 and any(reaches_point(f, c, anchor) for c in clk):
-                ctx.ob('C20.3', 'nanosleep: returns 0 only past the deadline', any(f.on_edge(c, p, anchor) for c, p in conds),
+                ctx.ob(rule, 'nanosleep: returns 0 only past the deadline', any(f.on_edge(c, p, anchor) for c, p in conds),
                        'the sleep ends only on the edge now > deadline', loc=anchor.loc)
     wait_loops(ctx, f, 'nanosleep', dts)
     for name, tryname, code, dl in (('myth_mutex_timedlock_body', 'myth_mutex_trylock_body', ETIMEDOUT, 'abstime'),
@@ -168,9 +168,9 @@ def rule3_noearly(ctx, v):
         clk = call_sites(h, 'hr_gettime')
         ab = h.param_named(dl)
         short = name.split('_')[1]
-        ctx.ob('C20.3', short + ': shape', len(dts) == 1 and len(trys) >= 2 and len(clk) == 1, 'try, then loop {clock, compare, try, yield}', loc=h.loc)
+        ctx.ob(rule, short + ': shape', len(dts) == 1 and len(trys) >= 2 and len(clk) == 1, 'try, then loop {clock, compare, try, yield}', loc=h.loc)
         for g, conds in dts:
-            ctx.ob('C20.3', short + ': compares the fresh clock with abstime', same_value(h, g.args[1], ab) and bool(clk) and
+            ctx.ob(rule, short + ': compares the fresh clock with abstime', same_value(h, g.args[1], ab) and bool(clk) and
                    h.sources(g.args[0]) == h.sources(clk[0].args[0]) and h.dominates_f(clk[0], g) and
                    lib.loop_containing(h, g) == lib.loop_containing(h, clk[0]) and h.in_loop(g),
                    'gt(now, abstime) with now read in this iteration', loc=g.loc)
@@ -179,25 +179,25 @@ def rule3_noearly(ctx, v):
             if k == 0:
                 ok = any(h.on_edge(ic.id, ic.pred == 'eq', anchor) for t in trys for ic in h.users(t.id)
                          if ic.op == 'icmp' and ic.pred in ('eq', 'ne') and const_int(ic.ops[1]) == 0)
-                ctx.ob('C20.3', short + ': success only after a successful try', ok, '0 is returned only on try == 0', loc=anchor.loc)
+                ctx.ob(rule, short + ': success only after a successful try', ok, '0 is returned only on try == 0', loc=anchor.loc)
             else:
-                ctx.ob('C20.3', short + ': timeout code', k == code, 'the failure code is the documented timeout code', loc=anchor.loc,
+                ctx.ob(rule, short + ': timeout code', k == code, 'the failure code is the documented timeout code', loc=anchor.loc,
                        detail=describe(h, val))
-                ctx.ob('C20.3', short + ': gives up only past the deadline', any(h.on_edge(c, p, anchor) for g, conds in dts for c, p in conds),
+                ctx.ob(rule, short + ': gives up only past the deadline', any(h.on_edge(c, p, anchor) for g, conds in dts for c, p in conds),
                        'timeout is reported only on the edge now > abstime', loc=anchor.loc)
                 for t in trys:
                     tests = [br for ic in h.users(t.id) if ic.op == 'icmp' for cond, pol in lib.cond_chain(h, ic.id)
                              for br, _t, _f in h.cond_edges(cond)]
                     leak = reaches_point(h, t, anchor, blocked=tests)
-                    ctx.ob('C20.3', short + ': no timeout after an untested try', not leak,
+                    ctx.ob(rule, short + ': no timeout after an untested try', not leak,
                            'a try that may have acquired the mutex / reaped the thread is always examined before a timeout can '
                            'be reported (otherwise the caller is told "timed out" while holding the lock)', loc=t.loc)
         # success whenever free at one of its attempts: first attempt happens before any deadline test
-        ctx.ob('C20.3', short + ': first attempt precedes the deadline test',
+        ctx.ob(rule, short + ': first attempt precedes the deadline test',
                any(not h.in_loop(t) and all(h.dominates_f(t, g) for g, _c in dts) for t in trys),
                'a past deadline still succeeds if the resource is free (try first)', loc=h.loc)
         wait_loops(ctx, h, short, dts)
-    ctx.floor('C20.3', 24)
+    ctx.floor(rule, 24)
 
 
 def wait_loops(ctx, f, short, dts):
@@ -220,21 +220,21 @@ def wait_loops(ctx, f, short, dts):
     ctx.ob('C20.3', short + ': has a yield', len(ys) >= 1, 'yield present', loc=f.loc)
 
 
-def rule4_conv(ctx, v):
-    ctx.doc('C20.4', 'myth_usleep_body: tv_sec = usec / 10^6, tv_nsec = (usec % 10^6) * 1000; myth_sleep_body: tv_sec = s, tv_nsec = 0; '
+def rule4_conv(ctx, v, rule='C20.4'):
+    ctx.doc(rule, 'myth_usleep_body: tv_sec = usec / 10^6, tv_nsec = (usec % 10^6) * 1000; myth_sleep_body: tv_sec = s, tv_nsec = 0; '
             'both forward to myth_nanosleep_body and return its result')
     u = ctx.need_fn(v, 'myth_usleep_body')
     s = ctx.need_fn(v, 'myth_sleep_body')
     for f, kind in ((u, 'usleep'), (s, 'sleep')):
         ns = call_sites(f, 'myth_nanosleep_body')
-        ctx.ob('C20.4', kind + ': forwards to nanosleep', len(ns) == 1, 'one nanosleep call', loc=f.loc)
+        ctx.ob(rule, kind + ': forwards to nanosleep', len(ns) == 1, 'one nanosleep call', loc=f.loc)
         if len(ns) != 1:
             continue
         req = ns[0].args[0]
         ss = [x for x in f.stores_to(TS + 'tv_sec') if f.sources(f.ap(x.ops[1]).root) == f.sources(f.ap(req).root)]
         sn = [x for x in f.stores_to(TS + 'tv_nsec') if f.sources(f.ap(x.ops[1]).root) == f.sources(f.ap(req).root)]
         ok = len(ss) == 1 and len(sn) == 1 and f.dominates_f(ss[0], ns[0]) and f.dominates_f(sn[0], ns[0])
-        ctx.ob('C20.4', kind + ': request filled before the call', ok, 'both fields of the request are written', loc=f.loc)
+        ctx.ob(rule, kind + ': request filled before the call', ok, 'both fields of the request are written', loc=f.loc)
         if not ok:
             continue
         if kind == 'usleep':
@@ -245,15 +245,15 @@ def rule4_conv(ctx, v):
             if m is not None and m.op == 'mul' and const_int(m.ops[1]) == 1000:
                 r = f.get(f.strip(m.ops[0]))
                 okm = r is not None and r.op in ('urem', 'srem') and const_int(r.ops[1]) == 1000000 and same_value(f, r.ops[0], 'a0')
-            ctx.ob('C20.4', 'usleep: sec = usec / 10^6', okq, 'whole seconds', loc=ss[0].loc, detail=expr_str(f, ss[0].ops[0]))
-            ctx.ob('C20.4', 'usleep: nsec = (usec % 10^6) * 1000', okm, 'remaining microseconds as nanoseconds', loc=sn[0].loc,
+            ctx.ob(rule, 'usleep: sec = usec / 10^6', okq, 'whole seconds', loc=ss[0].loc, detail=expr_str(f, ss[0].ops[0]))
+            ctx.ob(rule, 'usleep: nsec = (usec % 10^6) * 1000', okm, 'remaining microseconds as nanoseconds', loc=sn[0].loc,
                    detail=expr_str(f, sn[0].ops[0]))
         else:
-            ctx.ob('C20.4', 'sleep: sec = s, nsec = 0', same_value(f, ss[0].ops[0], 'a0') and const_int(sn[0].ops[0]) == 0,
+            ctx.ob(rule, 'sleep: sec = s, nsec = 0', same_value(f, ss[0].ops[0], 'a0') and const_int(sn[0].ops[0]) == 0,
                    'whole seconds only', loc=ss[0].loc)
         for val, anchor in ret_cases(f):
-            ctx.ob('C20.4', kind + ': returns nanosleep\'s result', isinstance(val, str) and ns[0].id in f.sources(val), 'result forwarded', loc=anchor.loc)
-    ctx.floor('C20.4', 8)
+            ctx.ob(rule, kind + ': returns nanosleep\'s result', isinstance(val, str) and ns[0].id in f.sources(val), 'result forwarded', loc=anchor.loc)
+    ctx.floor(rule, 8)
 
 
 def rule5_clock(ctx, fl):
@@ -282,6 +282,8 @@ def rule5_clock(ctx, fl):
 def run(ctx):
     for fl in flavours(ctx):
         ctx.unit = fl
+        ctx.doc('C20.6', 'native API forwarding: each public entry point of this property reaches the implementation of the same name with its parameters in order and returns its result (sibling slips such as trylock -> lock, signal -> broadcast, swapped arguments)')
+        lib.native_forwarding(ctx, 'C20.6', fl, lambda n: n in ('myth_sleep', 'myth_usleep', 'myth_nanosleep', 'myth_mutex_timedlock', 'myth_timedjoin'), floor=8)
         rule5_clock(ctx, fl)
         v = ctx.view(NATIVE, roots=['myth_nanosleep_body', 'myth_timespec_gt', 'myth_timespec_add', 'myth_mutex_timedlock_body',
                                     'myth_timedjoin_body', 'myth_usleep_body', 'myth_sleep_body'],
@@ -295,6 +297,8 @@ def run(ctx):
 SCHED = 'src/myth_sched_func.h'
 SYNC = 'src/myth_sync_func.h'
 MUTANTS = [
+    {'name': 'native myth_usleep forwards to sleep (seconds)', 'expect': 'C20.6',
+     'edits': [('src/myth_if_native.c', "  return myth_usleep_body(usec);", "  return myth_sleep_body(usec);")]},
     {'name': 'deadlines compared with the coarse clock (seed2 C20/m1)', 'expect': 'C20.5',
      'edits': [('src/myth_misc_func.h', "  return clock_gettime(CLOCK_REALTIME, ts);", "  return clock_gettime(CLOCK_REALTIME_COARSE, ts);")]},
     {'name': 'accepts tv_nsec == 10^9', 'expect': 'C20.1',
